@@ -1013,6 +1013,10 @@ class Evaluator:
             else:
                 cond = c[0] if len(c) == 1 else ('andlist', tuple(c))
                 val = ('ite', cond, r, val)
+        # effects that differ between the callee's paths are kept as one `branch` event (flattened by effect analyses)
+        n0 = len(P.events)
+        if any(len(p.events) > n0 for p in outs):
+            P.events = P.events + [('branch', (None, tuple((p.kind, tuple(p.conds[base_conds:]), tuple(p.events[n0:])) for p in outs)), fn.where)]
         mem_keys = set()
         for p in outs:
             mem_keys |= set(p.mem)
@@ -1044,6 +1048,7 @@ class Evaluator:
         P.locals = p.locals
         P.mem = p.mem
         P.conds = p.conds
+        P.events = p.events
         P.kind = 'fall'
         P.ret = None
 
@@ -1088,6 +1093,10 @@ class Evaluator:
                             (tgt.get('k') == 'call' and tgt.get('n') in ('operator[]', 'operator*', 'at')):
                         P.locals[(fr['id'], v['id'])] = ('alias', v['init'], fr)
                         continue
+                if v.get('static') and not (ty.startswith('const ') or ' const' in ty or ty.endswith('const')):
+                    # a mutable function-local static keeps whatever an earlier call left in it: unknown on entry
+                    P.locals[(fr['id'], v['id'])] = ('sym', 'static:%s:%s' % (fr['fn'].q if fr.get('fn') is not None else '?', v['n']))
+                    continue
                 if v.get('init') is not None:
                     P.locals[(fr['id'], v['id'])] = self.E(v['init'], P, fr)
                     if v['n'] in self.freeze:
@@ -1115,11 +1124,13 @@ class Evaluator:
                 A = P.fork() if known is None else P
                 if known is None:
                     A.conds.append(c)
+                    A.events.append(('cond', c, s.get('l')))
                 outs += self.exec_stmt(s['then'], A, fr)
             if known is not True:
                 B = P.fork() if known is None else P
                 if known is None:
                     B.conds.append(('not', c))
+                    B.events.append(('cond', ('not', c), s.get('l')))
                 outs += self.exec_stmt(s['else'], B, fr) if s.get('else') else [B]
             return outs
         if k == 'switch':
